@@ -11,9 +11,9 @@ histories of **any** length:
   violation `translate_three_frames_not_rect` of the excluded case; `compress_empty_unchanged`);
 * `step_names_nodup` / `run_names_nodup` — names stay pairwise distinct unless the caller edits names;
 * `step_refines` / `run_refines` — refinement to the plain-list reference model `Gv.Spec.stepOp`, for
-  all 38 operations of the history language (`Unalign`, `RenameRegexp`, `SetAlphabet`,
+  all 39 operations of the history language (`Unalign`, `RenameRegexp`, `SetAlphabet`,
   `ReverseComplementSequences`, `DiffWithFirst`, `ReplaceMatchChars`, `Mask`, `MaskOccurences` / `MaskUnique`, the general
-  `RemoveCharacterSites` and `RemoveMajorityCharacterSites` included);
+  `RemoveCharacterSites`, `RemoveMajorityCharacterSites` and `Replace` with a regular expression included);
 * `lookup_paths_agree`, `idByName_spec`, `byName_found_iff`, `obs_*` — the access paths agree;
 * `add_wrong_length_rejected` — a sequence of the wrong length is rejected, state unchanged;
 * `diffWithFirst_agrees_with_row_model` / `replaceMatchChars_agrees_with_row_model` — the container-level
@@ -185,6 +185,11 @@ theorem step_inv (b : Bag) (h : Inv b) (op : Op) (hw : OpWF b op) : Inv (stepOp 
       · exact h
       · rename_i r hr
         exact inv_cleanSitesBag (isCleanFn_maj _ ends ig iN) b h r hr
+  | replaceRe ok seqs =>
+    simp only [stepOp]
+    split
+    · exact h
+    · exact inv_replaceRegexBag seqs b h
 
 /-- **Every reachable state satisfies the invariant**: induction over histories of any length, from
 any state satisfying it (in particular from the empty containers). -/
@@ -342,12 +347,13 @@ theorem add_wrong_length_error_of_new_name (b : Bag) (ha : b.isAlign = true) (n 
 permutation of the positions; `Translate` is asked for one frame, or for the three frames of an
 alignment whose length is `≡ 2 (mod 3)` (known finding `align-translate-3frames-ragged`: for any other
 length the three frames have different numbers of codons, see `translate_three_frames_not_rect`);
-`Replace` and `Concat` did not return an error (both end with a scan of the row lengths and *report* a
-ragged result). -/
+`Replace` (literal or with a regular expression) and `Concat` did not return an error (both end with a scan of the row
+lengths and *report* a ragged result). -/
 def RectOK (b : Bag) : Op → Prop
   | .permute perm => IsPerm perm b.rows.length
   | .translate ph _ => TranslateRectOK b ph
   | .replace old new => (stepOp b (.replace old new)).2 ≠ "err"
+  | .replaceRe ok seqs => (stepOp b (.replaceRe ok seqs)).2 ≠ "err"
   | .concat rows => (stepOp b (.concat rows)).2 ≠ "err"
   | _ => True
 
@@ -511,6 +517,16 @@ theorem step_rect (b : Bag) (h : Rect b) (op : Op) (hw : RectOK b op) : Rect (st
       · exact h
       · rename_i r hr
         exact rect_cleanSitesBag (isCleanFn_maj _ ends ig iN) h r hr
+  | replaceRe ok seqs =>
+    simp only [RectOK, stepOp] at hw
+    simp only [stepOp]
+    split
+    · exact h
+    · rename_i hok
+      simp only [hok] at hw
+      apply rect_replaceRegexBag seqs h
+      revert hw
+      cases (replaceRegexBag seqs b).2 <;> simp
 
 /-- **Every reachable alignment is rectangular**: induction over histories of any length. -/
 theorem run_rect (ops : List Op) (b : Bag) (h : Rect b) (hw : HistRectOK b ops) : Rect (finalState b ops) := by
@@ -649,11 +665,11 @@ def OpWFR (b : Bag) : Op → Prop
   | .sample _ perm => IsPerm perm b.rows.length
   | _ => True
 
-/-- **One step refines the reference model** — every one of the 38 operations of the history
+/-- **One step refines the reference model** — every one of the 39 operations of the history
 language (`add`, `ignore`, `clear`, `append`, `concat`, `rename`, `appendId`, `cleanNames`, `trimNames`,
 `trimAuto`, `sort`, `permute`, `filter`, `dedup`, `rmSeqs`, `translate`, `clone`, `sample`, `toUpper`,
 `toLower`, `replace`, `setChar`, `trimSeqs`, `autoAlpha`, `revcomp`, `replaceChar`, `rmGapSites`, `compress`,
-`unalign`, `renameRe`, `setAlpha`, `revcompSeqs`, `diffFirst`, `replaceMatch`, `mask`, `maskOcc`, `rmCharSites`, `rmMajSites`), arbitrary arguments: whenever the reference
+`unalign`, `renameRe`, `setAlpha`, `revcompSeqs`, `diffFirst`, `replaceMatch`, `mask`, `maskOcc`, `rmCharSites`, `rmMajSites`, `replaceRe`), arbitrary arguments: whenever the reference
 specifies the outcome of the operation on the observable content, the Go-shaped model yields exactly
 that content (names, row order, residues, policy, alphabet, kind) and that status, and the strong
 invariant holds again. -/
@@ -700,6 +716,7 @@ theorem step_refines (b : Bag) (h : Good b) (op : Op) (hw : OpWFR b op)
     | maskOcc refseq maxOcc mr => exact ref_maskOcc h refseq maxOcc mr
     | rmCharSites cs num den ends ic ig iN rev => exact ref_rmCharSites h cs num den ends ic ig iN rev
     | rmMajSites num den ends ig iN => exact ref_rmMajSites h num den ends ig iN
+    | replaceRe ok seqs => exact ref_replaceRe h ok seqs
   exact this s' st hs
 
 /-- the reference model run over a history: final content and the status of every step; `none` as
@@ -946,7 +963,32 @@ example : ∃ s' sts, specRun (abs (newAlign 1)) demoHist5 = some (s', sts) ∧
     have := run_refines demoHist5 _ (good_of_empty_align 1) (by simp [demoHist5, HistWFR, OpWFR]) r.1 r.2 h
     exact ⟨r.1, r.2, rfl, this.1, this.2.1⟩
 
--- what the model shows after it (the cutoff test is float arithmetic: evaluated, not kernel-reduced)
+-- `Replace` with a regular expression, the new sequences supplied: a length-preserving one (every row of the alignment
+-- keeps 3 residues), an expression that does not compile, then one that shortens a row - the alignment reports an error
+-- and the reference stops specifying
+def demoHist6 : List Op :=
+  [.add "a" [65, 67, 71], .add "b" [65, 45, 84], .replaceRe true [[78, 67, 71], [78, 45, 84]], .replaceRe false []]
+
+set_option maxRecDepth 100000 in
+example : ∃ s' sts, specRun (abs (newAlign 1)) demoHist6 = some (s', sts) ∧
+    abs (finalState (newAlign 1) demoHist6) = s' ∧ (runOps (newAlign 1) demoHist6).map (·.2) = sts ∧
+    s'.rows = [("a", [78, 67, 71]), ("b", [78, 45, 84])] ∧ sts = ["ok", "ok", "ok", "err"] := by
+  have hsome : (specRun (abs (newAlign 1)) demoHist6).isSome = true := by decide
+  cases h : specRun (abs (newAlign 1)) demoHist6 with
+  | none => rw [h] at hsome; cases hsome
+  | some r =>
+    have := run_refines demoHist6 _ (good_of_empty_align 1) (by simp [demoHist6, HistWFR, OpWFR]) r.1 r.2 h
+    have h2 : (specRun (abs (newAlign 1)) demoHist6).map (fun r => (r.1.rows, r.2)) =
+        some ([("a", [78, 67, 71]), ("b", [78, 45, 84])], ["ok", "ok", "ok", "err"]) := by decide
+    rw [h] at h2
+    simp only [Option.map_some, Option.some.injEq, Prod.mk.injEq] at h2
+    exact ⟨r.1, r.2, rfl, this.1, this.2.1, h2.1, h2.2⟩
+
+example : (stepOp (finalState (newAlign 1) demoHist6) (.replaceRe true [[78, 67], [78, 45, 84]])).2 = "err" ∧
+    (Spec.stepOp (abs (finalState (newAlign 1) demoHist6)) (.replaceRe true [[78, 67], [78, 45, 84]])).1 = none := by
+  decide
+
+-- what the model shows after `demoHist5` (the cutoff test is float arithmetic: evaluated, not kernel-reduced)
 #guard (runOps (newAlign 1) demoHist5).map (·.2) =
   ["ok", "ok", "ok", "ok[2,1,2+3+4,0+1+5]", "ok[0,1,0+1,2]", "ok[0,0,0+1,_]"]
 #guard pairs (finalState (newAlign 1) demoHist5) = [("a", [71, 65]), ("b", [84, 99]), ("c", [71, 67])]
